@@ -22,9 +22,46 @@
 #define LOG2I_NAME CAT(log2i_, SFX)
 #define GCD_NAME CAT(gcd_, SFX)
 #define GCD_INST(T) CAT(gcd_, T)      /* gcd<T>(..) written explicitly in the source */
-/* other instantiations are only declared here (no contract: a call to one is an arbitrary value for this proof) */
+/* Other instantiations (gcd<T2>(..) written explicitly inside gcd<IntT>): the call is replaced by the CONTRACT of gcd at T2, i.e. the
+ * width-independent clauses every instantiation is proved to satisfy (groups Math.gcd<T2>.partial): arguments converted to T2 as the
+ * C++ call converts them, non-negative; result non-negative, gcd(a,0) = a, zero iff both zero, <= one of the arguments.  (The
+ * divisibility clauses at the caller's ghost divisors are not part of it -- they are phrased at the caller's width -- so a delegation
+ * is decided through these four clauses only; in the abstract-predicate groups the callee has no contract and the group is undecided.) */
+#define GCD_OTHER(T) T CAT(gcd_, T)(T a, T b) \
+  __CPROVER_requires(a >= 0 && b >= 0) \
+  __CPROVER_ensures(__CPROVER_return_value >= 0 && (b == 0 ==> __CPROVER_return_value == a)) \
+  __CPROVER_ensures((__CPROVER_return_value == 0) == (a == 0 && b == 0)) \
+  __CPROVER_ensures(__CPROVER_return_value <= a || __CPROVER_return_value <= b) \
+  __CPROVER_assigns();
+#if !defined(GCD_ABS) || !GCD_ABS
+#ifndef SFX_IS_uint8_t
+GCD_OTHER(uint8_t)
+#endif
+#ifndef SFX_IS_int8_t
+GCD_OTHER(int8_t)
+#endif
+#ifndef SFX_IS_uint16_t
+GCD_OTHER(uint16_t)
+#endif
+#ifndef SFX_IS_int16_t
+GCD_OTHER(int16_t)
+#endif
+#ifndef SFX_IS_uint32_t
+GCD_OTHER(uint32_t)
+#endif
+#ifndef SFX_IS_int32_t
+GCD_OTHER(int32_t)
+#endif
+#ifndef SFX_IS_uint64_t
+GCD_OTHER(uint64_t)
+#endif
+#ifndef SFX_IS_int64_t
+GCD_OTHER(int64_t)
+#endif
+#else
 uint8_t gcd_uint8_t(uint8_t, uint8_t); int8_t gcd_int8_t(int8_t, int8_t); uint16_t gcd_uint16_t(uint16_t, uint16_t); int16_t gcd_int16_t(int16_t, int16_t);
 uint32_t gcd_uint32_t(uint32_t, uint32_t); int32_t gcd_int32_t(int32_t, int32_t); uint64_t gcd_uint64_t(uint64_t, uint64_t); int64_t gcd_int64_t(int64_t, int64_t);
+#endif
 #define RF_NAME CAT(reduce_fraction_, SFX)
 
 /* value of an IntT as a non-negative number of the wider type WT (only used on non-negative values); products of two
